@@ -38,6 +38,11 @@ def _labels(desc, n, m, k, a, rec):
 
 def check_lanczos(case, rec):
     A, v, k, reach = build(case)
+    if k < 0:
+        rec.skip('real start vector with a nearly vanishing eigen-component: Krylov dimension numerically fuzzy')
+        return
+    if case.get('real_start'):
+        rec.label('real_start_complex_map')
     n = A.shape[0]; m = case['m']
     A0 = A.copy(); v0 = v.copy()
     with warnings.catch_warnings():
@@ -69,6 +74,11 @@ def check_lanczos(case, rec):
 
 def check_arnoldi(case, rec):
     A, v, k, reach = build(case)
+    if k < 0:
+        rec.skip('real start vector with a nearly vanishing eigen-component: Krylov dimension numerically fuzzy')
+        return
+    if case.get('real_start'):
+        rec.label('real_start_complex_map')
     n = A.shape[0]; m = case['m']
     v0 = v.copy()
     with warnings.catch_warnings():
